@@ -108,6 +108,9 @@ func loadBases(repo string, thorough bool) []baseDoc {
 			out = append(out, baseDoc{Name: fmt.Sprintf("oddity %d (internal/grammar)", i+1), Doc: d})
 		}
 	}
+	if d, err := docmodel.Parse([]byte(grammar.NestedCompositionsSpec)); err == nil {
+		out = append(out, baseDoc{Name: "nested compositions (internal/grammar)", Doc: d})
+	}
 	if d, err := docmodel.Parse([]byte(grammar.RecursiveDefaultsSpec)); err == nil {
 		out = append(out, baseDoc{Name: "recursive schemas in default responses (internal/grammar)", Doc: d})
 	}
